@@ -476,7 +476,7 @@ func propC09(j *Job) {
 		if bi == 2 {
 			continue
 		}
-		for _, kind := range []string{"multi", "stale", "expired"} {
+		for _, kind := range []string{"multi", "stale", "expired", "reset"} {
 			for _, x := range []string{"closeB", "abortB", "abortA", "readerrB", "conncloseB", "closeA"} {
 				for _, when := range []time.Duration{50 * time.Millisecond, 300 * time.Millisecond} {
 					if !j.Thorough() && when != 50*time.Millisecond && bi > 0 {
@@ -570,6 +570,12 @@ func readersScenario(a, b epCfg, kind, x string, when time.Duration) *Scenario {
 					m.Sleep(when + 900*time.Millisecond)
 					loop("late-reader", sb)
 				}))
+			case "reset":
+				// a far read deadline on a stream nobody reads from at the moment; the peer then
+				// resets the stream, which takes it out of the association's table: the deadline's
+				// goroutine still has to go when the association does
+				_ = sb.SetReadDeadline(time.Now().Add(90 * time.Second))
+				_ = sa.Close()
 			case "stale":
 				_ = sb.SetReadDeadline(time.Now().Add(when + 400*time.Millisecond))
 				ts = append(ts, m.Go("late-reader", func() {
@@ -577,7 +583,9 @@ func readersScenario(a, b epCfg, kind, x string, when time.Duration) *Scenario {
 					loop("late-reader", sb)
 				}))
 			}
-			_, _ = sa.WriteSCTP(payload(1, 0, 30), PayloadTypeWebRTCBinary)
+			if kind != "reset" {
+				_, _ = sa.WriteSCTP(payload(1, 0, 30), PayloadTypeWebRTCBinary)
+			}
 			m.Sleep(when)
 			m.inject(x)
 			side := sideOf(x)
